@@ -127,6 +127,36 @@ pub fn h_add_alt_zst() {
     });
 }
 
+/// The same for a failure reported as a ready-made error value (`try_map`, `custom`, re-offers).
+pub fn h_add_alt_err_zst() {
+    run::<u8, VZ, (), _>(|inp, s0| {
+        let at = ch::below(s0.len);
+        inp.add_alt_err(&at, VZ);
+        let s = snap(inp);
+        vcover!(s0.alt.is_none(), "add_alt_err zst: nothing pending before");
+        vassert!(s.alt.is_some(), "C20/add_alt_err.zero-sized-error-still-leaves-a-pending-error");
+        vassert!(s.pos == s0.pos && s.nsec == s0.nsec && s.believed == s.pos, "C06/add_alt_err.touches-only-the-pending-error");
+    });
+}
+
+/// `skip()`: consumes exactly one token like `next()` (inspector notified), nothing at the end of input.
+pub fn h_skip() {
+    run::<u8, VErr, (), _>(|inp, s0| {
+        let tokens0 = inp.state.tokens;
+        inp.skip();
+        let s = snap(inp);
+        vassert!(s.nsec == s0.nsec && s.alt == s0.alt, "C05/skip.touches-neither-errors-nor-pending-error");
+        if s0.pos < s0.len {
+            vcover!(true, "skip: token");
+            vassert!(s.pos == s0.pos + 1, "C10/skip.advances-by-exactly-one-token");
+            vassert!(s.believed == s.pos && inp.state.tokens == tokens0.wrapping_add(1), "C18/skip.inspector-notified-once-per-consumed-token");
+        } else {
+            vcover!(true, "skip: end of input");
+            vassert!(s.pos == s0.pos && s.believed == s0.pos && inp.state.tokens == tokens0, "C18/skip.end-of-input-moves-nothing");
+        }
+    });
+}
+
 /// Token access: next* yields the token at the position and advances by one, or None at the end
 /// without moving; the inspector's on_token runs iff a token is consumed; peek* changes nothing.
 pub fn h_next<const KIND: usize>() {
@@ -209,6 +239,8 @@ harnesses! {
     add_alt_err_rule = h_add_alt_err;
     add_alt_rule = h_add_alt;
     add_alt_zst = h_add_alt_zst;
+    add_alt_err_zst = h_add_alt_err_zst;
+    skip_one = h_skip;
     next_inner = h_next::<0>;
     next_maybe_inner = h_next::<1>;
     next_pub = h_next::<2>;
